@@ -278,29 +278,38 @@ class Ctx:
         info = self.proof_info
         info['checker_cmd'] = ('make -C coq %s (full .vo build, Coq 8.16.1) ; coqc %s (Print Assumptions)'
                                % (prop_file + 'o', prop_file))
-        # regenerated inputs first: every translator harness/gen_*.py rewrites its coq/gen/*.v from the source under test
+        # regenerated inputs first: the translators (harness/gen_*.py) whose generated files this property's theorems depend
+        # on rewrite them from the source under test.  The dependency closure is computed from the existing files (a copy of
+        # every generated file is committed); a driver whose outputs cannot be told is always run.
         import glob
-        gens = sorted(glob.glob(os.path.join(VERIF, 'harness', 'gen_*.py')))
-        gen_failed = []
-        if gens and os.path.exists(os.path.join(COQ, 'gen')):
-            with open(os.path.join(VERIF, '.work', '.lock'), 'w') as lk:
-                fcntl.flock(lk, fcntl.LOCK_EX)
-                for gen in gens:
-                    r = subprocess.run([PY, '-B', gen], capture_output=True, text=True, env=impl_env())
-                    if r.returncode != 0:
-                        gen_failed.append((os.path.basename(gen), (r.stdout + r.stderr)[-800:]))
         try:
             files = self.closure(prop_file)
         except FileNotFoundError as e:
             self.problem('proof-break', 'closure', 'missing file %s' % e, theorem=prop_file)
             return False
-        for g, msg in gen_failed:
+        needed = [f for f in files if f.startswith('gen/')]
+
+        def prefix_of(g):
             out = GEN_OUTPUT.get(g)
             if out is None and g.startswith('gen_skel_'):
-                # convention of the tie drivers: harness/gen_skel_<name>.py writes coq/gen/Gen_Skel_<Name>.v
-                out = 'gen/Gen_Skel_%s.v' % g[len('gen_skel_'):-3].capitalize()
-            if out is None or out in files:        # a translator this property's theorems depend on
-                self.problem('proof-break', g, 'translator failed closed: ' + msg, theorem='coq/%s (generated by %s)' % (out or 'gen', g))
+                # convention of the tie drivers: harness/gen_skel_<name>.py writes coq/gen/Gen_Skel_<Name>*.v
+                out = 'gen/Gen_Skel_%s' % g[len('gen_skel_'):-3].capitalize()
+            return out[:-2] if out and out.endswith('.v') else out
+        gens = sorted(glob.glob(os.path.join(VERIF, 'harness', 'gen_*.py')))
+        if gens and os.path.exists(os.path.join(COQ, 'gen')):
+            with open(os.path.join(VERIF, '.work', '.lock'), 'w') as lk:
+                fcntl.flock(lk, fcntl.LOCK_EX)
+                for gen in gens:
+                    g = os.path.basename(gen)
+                    pre = prefix_of(g)
+                    if pre is not None and not any(f.startswith(pre) for f in needed):
+                        continue
+                    r = subprocess.run([PY, '-B', gen], capture_output=True, text=True, env=impl_env())
+                    if r.returncode != 0:
+                        self.problem('proof-break', g, 'translator failed closed: ' + (r.stdout + r.stderr)[-800:],
+                                     theorem='coq/%s (generated by %s)' % ((pre or 'gen') + '*.v', g))
+            # the regenerated files may import differently: recompute
+            files = self.closure(prop_file)
         info['files'] = files
         names = []
         bad = []
